@@ -1,7 +1,5 @@
+#include "specdefs.h"
 typedef struct CallasDonnerhackeFinneyShawThayerRFC4880 CallasDonnerhackeFinneyShawThayerRFC4880;
-#define MVCAP ((size_t)16384)   /* covers the longest MPI (65535 bits = 8192 octets + 2) */
-#define MVEC_OK(v) (__CPROVER_is_fresh((v), sizeof(*(v))) && (v)->cap == MVCAP && (v)->size <= MVCAP && __CPROVER_is_fresh((v)->data, MVCAP))
-#define STR_OK(s) (__CPROVER_is_fresh((s), sizeof(*(s))) && (s)->cap == 2 * MVCAP && (s)->size <= MVCAP && __CPROVER_is_fresh((s)->data, 2 * MVCAP))
 /* libgcrypt MPI entry points: opaque handles; scan may fail */
 enum { GCRYMPI_FMT_USG = 5 };
 unsigned long nondet_ulong(void); _Bool nondet_bool(void);
@@ -11,4 +9,3 @@ static inline gcry_error_t gcry_mpi_scan(gcry_mpi_t *ret, int fmt, const void *b
 static inline void *gcry_malloc_secure(size_t n) { if (nondet_bool()) return 0; return malloc(n); }
 static inline void gcry_free(void *p) { free(p); }
 void *memset(void *s, int c, size_t n);
-#define MPILEN(in) ((((size_t)(in)->data[0] << 8) + (in)->data[1] + 7) / 8)
